@@ -234,7 +234,8 @@ class World:
             return False
         # detected on the model itself (it may have been copied or unpickled before the history started: build paths)
         solver = self.model.solver
-        mixed = any(type(v).__module__ != type(solver).__module__ for v in solver.variables)
+        # variables *and* constraints (a model without reactions at copy time has rows only; seed 6 of a quick-tier sweep)
+        mixed = any(type(v).__module__ != type(solver).__module__ for v in (*solver.variables, *solver.constraints))
         if (mixed or getattr(self, "exact_copy", False)) and self.model.problem.__name__.endswith("glpk_exact_interface"):
             self._count_excluded("glpk-exact-copy-vartype")
             return True
